@@ -4,6 +4,7 @@ import WellenModel.Model.Spec
 import WellenModel.Model.VcdBody
 import WellenModel.Model.HierDump
 import WellenModel.Model.Slice
+import WellenModel.Model.Fst
 /-
 `wmdriver`: reads one request per line on stdin, answers `<model reply>\t<spec reply>` per line.
 Imports only the import-free `Model` modules (the same definitions the theorems are about).
@@ -146,6 +147,39 @@ def handleSlice (ws ops ms ls : String) : String × String :=
         if l.isEmpty then "-" else ",".intercalate (l.map fun (t, v) => s!"{t}={showSpecValue v}")
     (m, sp)
   | _, _, _, _ => ("bad-request", "-")
+
+/-! ### FST SignalWriter (C10) -/
+open Wellen.Bits Wellen.Store Wellen.Spec Wellen.Fst in
+/-- `fstw <type> <idx=hex,...>`: callbacks of one signal (b<w>: value characters; r: 8 LE bytes; s: string bytes) -/
+def handleFstw (tp chs : String) : String × String :=
+  let tpe? := if tp = "r" then some SigType.real else if tp = "s" then some SigType.string
+              else (tp.drop 1).toString.toNat?.map SigType.bitvec
+  let cs? : Option (List (Nat × List Nat)) := if chs = "-" then some [] else
+    (chs.splitOn ",").mapM fun c => match c.splitOn "=" with
+      | [i, v] => do some (← i.toNat?, ← hexBytes? v)
+      | _ => none
+  match tpe?, cs? with
+  | some tpe, some cs =>
+    let wv := cs.map fun (i, v) => (i, match tpe with | .real => WValue.real v | _ => WValue.chars v)
+    let m := match runWriter tpe wv with
+      | none => "panic"
+      | some l => (showLoaded tpe l).getD "panic"
+    -- spec: canon of the callback history
+    let vals? : Option (List (Nat × Value)) := cs.mapM fun (i, v) =>
+      match tpe with
+      | .real => if v.length = 8 then some (i, Value.real v) else none
+      | .string => some (i, Value.str v)
+      | .bitvec bits => match charsToNums v with
+        | some nums => if nums.length = bits then some (i, Value.bits nums) else none
+        | none => none
+    let mono := (cs.map (·.1)).zip ((cs.map (·.1)).drop 1) |>.all fun (a, b) => a ≤ b
+    let sp := match vals? with
+      | some vals => if !mono then "-" else
+        let l := canon vals
+        if l.isEmpty then "-" else ",".intercalate (l.map fun (t, v) => s!"{t}={showSpecValue v}")
+      | none => "-"
+    (m, sp)
+  | _, _ => ("bad-request", "-")
 
 /-! ### whole VCD bodies -/
 open Wellen.Bits Wellen.Store Wellen.Spec Wellen.VcdBody in
@@ -342,12 +376,14 @@ def handleVcd (opts vars rmap body : String) : String × String :=
 
 def handle (line : String) : String × String :=
   match splitSp line with
+  | ["fstw", tp, chs] => handleFstw tp chs
   | ["slice", w, ops, msb, lsb] => handleSlice w ops msb lsb
   | ["hier", ops] => Wellen.Hier.handle ops
   | ["vcd", opts, vars, rmap, body] => handleVcd opts vars rmap body
   | ["vcdmt", opts, vars, rmap, body] => handleVcdMt opts vars rmap body
   | ["entryvcd", vars, rmap, body] => handleEntryVcd vars rmap body
   | ["entryfile", _] => ("same:ok", "same:ok")
+  | ["pairfile", _, _] => ("same", "same")
   | ["vcdcut", opts, vars, rmap, body, k, lb] => handleCut opts vars rmap body k lb
   | ["store", types, ops] => handleStore types ops
   | ["store", types, ops, _] => handleStore types ops
